@@ -41,4 +41,27 @@ def groups():
     for fn in ('VALUE', 'VARGS', 'MVARGS', 'PORTS', 'OPORTS', 'ARGS', 'MARGS', 'MOREP', 'P', 'S', 'expected_end_or_semicolon'):
         gs.append(Group('parse_' + fn, ['C02', 'C04'] + (['C07', 'C08'] if fn in ('P', 'S') else []), f'{fn} (Compiler/src/parse.cpp)', 'c_' + fn, _build(fn), timeout=1800,
                         note='callees (ParseState members and all descent functions) replaced by their contracts'))
+    gs += prod_groups()
     return gs
+
+
+def prod_groups():
+    rec = {'match': 'c_match_r', 'matchmk': 'c_matchmk_r', 'VALUE': 'c_VALUE_r', 'MOREP': 'c_MOREP_r', 'expected_end_or_semicolon': 'c_eeos_r', 'P_rec': 'c_P_r',
+           'P': 'c_P_r', 'PORTS': 'c_PORTS_r', 'S_rec': 'c_S_r'}
+
+    def mk(fn):
+        def build(gw, rl):
+            b = _build(fn)(gw, rl)
+            b['c_sources'] = [os.path.join(CONTRACTS, 'parse_prod.c')]
+            b['entry'] = f'h_{fn}_prod'
+            b['enforce'] = [f'w_{fn}/c_{fn}_prod']
+            out = []
+            for r in b['replace']:
+                w, c = r.split('/')
+                out.append(f'{w}/{rec.get(w[2:], c)}')
+            b['replace'] = out
+            return b
+        return build
+    return [Group(f'parse_{fn}_prod', ['C04', 'C01', 'C07', 'C02'] + (['C16'] if fn == 'S' else []), f'{fn} (Compiler/src/parse.cpp): production conformance and tree shape',
+                  f'c_{fn}_prod', mk(fn), timeout=2400,
+                  note='callees replaced by recording variants of their contracts (ghost trace of terminals / nonterminals and returned nodes)') for fn in ('P', 'S')]
